@@ -341,7 +341,9 @@ Inductive label :=
 | Worker_Pop (w : N) (i : nat)     (* idle worker w pops the i-th pending task *)
 | Worker_Step (w : N)
 | Worker_Unblock (w : N)
-| MQ_Send (q : peer).              (* q's queue sends what is queued and the send completes *)
+| MQ_Send (q : peer)               (* q's queue sends what is queued and the send completes *)
+| Env_PeerTable (p : peer).        (* a WRITE to the message manager's peer table: Connected(p), Disconnected(p), the
+                                      creation of p's queue by its first message, a queue's shutdown callback *)
 
 Definition wpc_peer (x : wpc) : option peer :=
   match x with
@@ -457,6 +459,15 @@ Definition step (c : cfg) (s : state) (l : label) : option state :=
                else let '(a', _, _, _) := Alloc.step (al s1) (ORelease q b) in Some (set_al s1 a')
            | _ => None
            end
+  | Env_PeerTable _ =>
+      (* PeerTableLockNotHeldAcrossWait: peermanager.GetProcess takes the table's lock and RETURNS before
+         PeerMessageManager.AllocateAndBuildMessage calls the queue, i.e. before any reservation can wait, and no
+         other holder of that lock waits on anything (getOrCreate starts a goroutine, Disconnected calls Shutdown
+         after unlocking).  So a write to the table is never blocked by a waiting reservation and, once done,
+         blocks nobody: in the model it is always enabled and changes nothing that decides blocking.  C25_partial,
+         C25_workers_partial and the accept lemmas quantify over this label at every point of every history; the
+         driver performs real table writes while a reservation of the stalled peer is parked in an executor. *)
+      Some s
   end.
 
 Inductive steps (c : cfg) : state -> list label -> state -> Prop :=
@@ -528,16 +539,23 @@ Definition quiescent (c : cfg) (s : state) : bool :=
   match next_internal c s with None => true | Some _ => false end.
 
 (* a directed history: messages arrive one at a time, the system runs until nothing internal is enabled *)
-Fixpoint run_msgs (fuel : nat) (c : cfg) (s : state) (ms : list (list item)) : state * list label :=
-  match ms with
+Inductive sev := EvMsg (m : list item) | EvPeerTable (p : peer).
+Definition sev_label (e : sev) : label :=
+  match e with EvMsg m => Env_Msg m | EvPeerTable p => Env_PeerTable p end.
+
+Fixpoint run_script (fuel : nat) (c : cfg) (s : state) (es : list sev) : state * list label :=
+  match es with
   | [] => (s, [])
-  | m :: r =>
-      match step c s (Env_Msg m) with
+  | e :: r =>
+      match step c s (sev_label e) with
       | None => (s, [])
       | Some s1 => let '(s2, tr) := settle fuel c s1 in
-                   let '(s3, tr') := run_msgs fuel c s2 r in (s3, Env_Msg m :: tr ++ tr')
+                   let '(s3, tr') := run_script fuel c s2 r in (s3, sev_label e :: tr ++ tr')
       end
   end.
+
+Definition run_msgs (fuel : nat) (c : cfg) (s : state) (ms : list (list item)) : state * list label :=
+  run_script fuel c s (map EvMsg ms).
 
 Definition answered (s : state) (q : peer) (r : rid) : bool :=
   existsb (fun x => N.eqb (fst x) q &&
@@ -551,7 +569,7 @@ Definition unstalled (c : cfg) : cfg :=
 (* ---- the cases the harness writes ---- *)
 Record scase := {
   sc_cfg : cfg;
-  sc_msgs : list (list item);        (* the history, the last message is the probe of the other peer *)
+  sc_msgs : list sev;                (* the history (messages and peer-table writes), the last message is the probe *)
   sc_probe_peer : peer; sc_probe_rid : rid;
   sc_api_sites : list rid;           (* unused by the model; kept for the record *)
   (* observed on the implementation *)
@@ -564,7 +582,7 @@ Definition case_fuel : nat := 400.
 
 Definition model_verdict (x : scase) : bool * bool * bool :=
   let c := sc_cfg x in
-  let '(s1, _) := run_msgs case_fuel c (init c) (sc_msgs x) in
+  let '(s1, _) := run_script case_fuel c (init c) (sc_msgs x) in
   let '(s2, _) := settle case_fuel (unstalled c) s1 in
   (accepted s1 (sc_probe_rid x), answered s1 (sc_probe_peer x) (sc_probe_rid x),
    answered s2 (sc_probe_peer x) (sc_probe_rid x)).
